@@ -356,12 +356,23 @@ func term(v ssa.Value, depth int) string {
 	return fmt.Sprintf("%T(%s)", v, v.Name())
 }
 
+// CanonField, when set, maps a struct field to its canonical (role) name, so
+// that rules are insensitive to renames of unexported fields.
+var CanonField func(f *types.Var) string
+
 func fieldName(t types.Type, i int) string {
 	if p, ok := t.Underlying().(*types.Pointer); ok {
 		t = p.Elem()
 	}
 	if s, ok := t.Underlying().(*types.Struct); ok && i < s.NumFields() {
-		return s.Field(i).Name()
+		f := s.Field(i)
+		if CanonField != nil {
+			// fields of instantiated generic structs are distinct objects: map through the origin
+			if n := CanonField(f.Origin()); n != "" {
+				return n
+			}
+		}
+		return f.Name()
 	}
 	return fmt.Sprintf("f%d", i)
 }
